@@ -301,7 +301,14 @@ func dischargeFlat(obls []*Obl, outDir string, secs int, par int) {
 		var script string
 		var mnames []string
 		if o.ExpectSat {
-			as := append([]*Term{}, o.Assume...)
+			// vacuity check over the quantifier-free assumptions (models of quantified formulas are
+			// rarely found by the solvers; contradictory preconditions are quantifier-free in practice)
+			var as []*Term
+			for _, a := range o.Assume {
+				if !hasQuantifier(a, map[*Term]bool{}) {
+					as = append(as, a)
+				}
+			}
 			as = append(as, litAxiomsFor(as, o.Reach)...)
 			script = Script(append(as, o.Reach), nil, false, nil)
 		} else {
